@@ -496,7 +496,7 @@ finddomainfd(int fd, const char *domain, const int cl)
 int
 finddomain(const char *buf, const off_t size, const char *domain)
 {
-	if (!buf)
+	if (!buf || (size <= 0))
 		return 0;
 
 	size_t dl = strlen(domain);
@@ -532,10 +532,13 @@ finddomain(const char *buf, const off_t size, const char *domain)
 		}
 		cur = cure;
 		if (cure) {
-			while (*cur == '\n') {
+			/* do not look at the byte behind the buffer if the file ends in a newline */
+			while ((cur < buf + size) && (*cur == '\n')) {
 				cur++;
 			}
 			pos = cur - buf;
+			if (pos >= size)
+				cur = NULL;
 		}
 	} while (cur);
 
